@@ -632,8 +632,9 @@ impl BitVector for Bvd {
 
 impl Hash for Bvd {
     fn hash<H: Hasher>(&self, state: &mut H) {
-        self.length.hash(state);
-        for i in 0..Self::capacity_from_bit_len(self.length) {
+        let significant = self.significant_bits();
+        significant.hash(state);
+        for i in 0..Self::capacity_from_bit_len(significant) {
             self.data[i].hash(state);
         }
     }
